@@ -1,7 +1,7 @@
 """C08 — conv-probe property (see vlib/props/convprops.py)."""
 from vlib.props import convprops as P, convcommon as cc
 from vlib import convgen as g
-globals().update(P.make('C08', 'conv probe: every cut point (connection closed at every octet offset) of 6 conversations (DATA, BDAT, LMTP, AUTH) in 2 configurations; generic sweep and walks incl. TLS; every server-initiated close (QUIT, error threshold, over-long line, idle timeout, backend panic) with pipelined suffixes. non-trivial = at least one backend callback', ['C08_lifecycle', 'C08_lifecycle_visible', 'C08_ends_closed'], [('every-cut', P.cut_convs), ('failed-handshake', P.hsfail_convs)], lambda a: cc.project(a, codes='class', enh=False, drecs='ret'), tls=True, configs=None))
+globals().update(P.make('C08', 'conv probe: every cut point (connection closed at every octet offset) of 6 conversations (DATA, BDAT, LMTP, AUTH) in 2 configurations; generic sweep and walks incl. TLS; every server-initiated close (QUIT, error threshold, over-long line, idle timeout, backend panic) with pipelined suffixes. non-trivial = at least one backend callback', ['C08_lifecycle', 'C08_lifecycle_visible', 'C08_ends_closed', 'C08_cut_line_not_executed', 'C08_cut_line_not_read'], [('every-cut', P.cut_convs), ('failed-handshake', P.hsfail_convs)], lambda a: cc.project(a, codes='class', enh=False, drecs='ret'), tls=True, configs=None))
 
 
 # --- overlapping Close calls: the peer goes away / QUITs / the application closes the connection while Server.Close or
@@ -50,6 +50,36 @@ def close_during_newsession(tier, rng):
     return cases
 
 
+from vlib.gen import hx as _hx
+
+# --- a command line cut short by the end of the connection or by the idle timeout ---------------------------------------------------
+def cutline_cases(tier, rng):
+    """the conversation ends inside a command line (no LF has arrived): the peer disconnects, or goes silent until the read timeout
+    fires.  Nothing of that line may be executed: no callback mentions the bait, a cut `BDAT 0 LAST` does not complete the message."""
+    cases = []
+    for lm in (0, 1):
+        hello = (b"LHLO" if lm else b"EHLO") + b" x\r\n"
+        pres = {
+            "greet": ([], [b"EHLO bait.example", b"HELO bait.example\r", b"LHLO bait.example"]),
+            "mail": ([hello], [b"MAIL FROM:<bait@x> SIZE=1", b"MAIL FROM:<bait@x>\r", b"mail from:<bait@x> BODY=8BITMIME"]),
+            "rcpt": ([hello, b"MAIL FROM:<s@x>\r\n"], [b"RCPT TO:<bait@x>", b"RCPT TO:<bait@x> NOTIFY=NEVER\r"]),
+            "auth": ([hello], [b"AUTH PLAIN AGJhaXQAcGFzcw==", b"AUTH PLAIN"]),
+        }
+        for name, (pre, tails) in pres.items():
+            for t in tails:
+                for how in ("eof", "timeout"):
+                    c = g.Conv(dict(lmtp=lm, rt=int(how == "timeout"), insecure=1, authsess=1, mechs=_hx(b"PLAIN")) if name == "auth" else dict(lmtp=lm, rt=int(how == "timeout")))
+                    for p_ in pre:
+                        c.add(p_, **({"NS": "ok"} if p_[:4] in (b"EHLO", b"LHLO") else {"MAIL": "ok"}))
+                    c.add(t)
+                    f = c.case(seg=rng.choice(["line", "one"]), rng=rng).split("\t")
+                    if how == "timeout":
+                        segs, end = f[3].split(";")
+                        f[3] = segs + ",TO;" + end
+                    cases.append("\t".join(f) + "\tTAG=cutline")
+    return cases
+
+
 def _proj_lo(case, ans):
     import re
     ns = sorted(set(re.findall(r"NS:(\d+):[^;]*:ok", ans)))
@@ -57,5 +87,6 @@ def _proj_lo(case, ans):
 
 
 def groups(tier, rng):
-    return _g0(tier, rng) + [_Group("sched/overlapping-closes", overlapping_closes(tier, rng), project=_C20.project, theorems=THEOREMS),
+    return _g0(tier, rng) + [_Group("conv/cut-inside-a-command-line", cutline_cases(tier, rng), project=lambda c, a: cc.project(a, codes="exact", enh=True, drecs="ret"), theorems=THEOREMS),
+                    _Group("sched/overlapping-closes", overlapping_closes(tier, rng), project=_C20.project, theorems=THEOREMS),
                              _Group("sched/close-during-newsession", close_during_newsession(tier, rng), project=_proj_lo, theorems=THEOREMS)]
